@@ -258,3 +258,56 @@ func verifC09_late_closeread() {
 	vAssert(vGhostGoroutines() == 0, "C20.exit.closeread-goroutine-gone")
 	vObserve("latecloseread", how)
 }
+
+// C09.double-pong: a Ping is registered and stuck writing its frame (the peer does not read); the peer sends the Pong
+// for it twice (peers can predict counter payloads; duplicates happen). Whatever the reader does with the second one,
+// it must not get stuck holding the read lock: CloseNow returns promptly and the Ping and the CloseRead context end.
+func verifC09_double_pong() {
+	client := vParam("client", 1) == 1
+	vInstallRand()
+	mk := func(f vFrame) vFrame {
+		f.masked = !client
+		if f.masked {
+			copy(f.key[:], vBytes("key", 4))
+		}
+		return f
+	}
+	t := vNewTransport(nil)
+	t.endMode = vEndBlock
+	t.holdAt = 1
+	c := vNewConn(t, client, nil, 32, 64)
+	rctx := c.CloseRead(vBG)
+	pdone := make(chan error, 1)
+	go func() { pdone <- c.Ping(vBG) }()
+	vGhostSettle() // the Ping is registered and its frame is held in the transport
+	for i := 0; i < 2+vChoose("more", 2); i++ {
+		for _, pl := range []string{"1", "0"} {
+			t.vFeed(vEncodeFrame(mk(vFrame{fin: true, opcode: 10, payload: []byte(pl)})))
+		}
+		vGhostSettle()
+	}
+	start := vGhostElapsed()
+	done := make(chan struct{})
+	go func() {
+		c.CloseNow()
+		close(done)
+	}()
+	select {
+	case <-done:
+	case <-time.After(20 * time.Second):
+		vAssert(false, "C09.closenow.returns")
+	}
+	vReach("C09.double-pong.closed")
+	vAssert(vGhostElapsed()-start < time.Second+vSlack(), "C09.closenow.prompt")
+	select {
+	case <-pdone:
+	case <-time.After(5 * time.Second):
+		vAssert(false, "C09.blocked-calls-return-once-closed")
+	}
+	select {
+	case <-rctx.Done():
+	case <-time.After(5 * time.Second):
+		vAssert(false, "C09.closeread.cancelled-at-all")
+	}
+	vObserve("c09doublepong", 0)
+}
